@@ -18,6 +18,7 @@ mod c10;
 mod c11;
 mod c12;
 mod c13;
+mod c17;
 mod genprog;
 mod irdecode;
 mod prog;
@@ -136,6 +137,10 @@ fn main() {
         "C13" => {
             c13::run(&rep);
             (c13::RULE, false, vec![A_CLI, "comparison of macro program vs expanded program uses the same assembler, isolating substitution and bookkeeping", "a generated use whose reference expansion is itself invalid code is only required to be rejected"])
+        }
+        "C17" => {
+            c17::run(&rep);
+            (c17::RULE, false, vec![A_CLI, "the machine state at a print command is the hook record emitted directly before it; memory contents come from the dump of the halting record, the per-record memory digest proves they did not change in between"])
         }
         "C06" => {
             c06::run(&rep);
